@@ -95,6 +95,8 @@ class World:
         self.dir_calls = []            # (directive, path, canon(directive_args), args) recorded by @vtrec
         self.share_values = False      # the SAME Python object is returned whenever one field instance is resolved again
         self._shared = {}              # (through another alias / merged node): the engine must not write into resolver data
+        self.p_raise_odd = 0.0         # probability that an explicit resolver raises an awkward exception (no reference model:
+                                       # only for checks that judge the response's shape)
         self.p_long_obj = 0.0          # probability that a ROOT-level list of objects is wide (size boundaries: 128, 130, 257 items)
         self.long_obj_sizes = (128, 130, 257)
         self.p_long = 0.0              # probability that a list of leaves is LONG (513 / 600 / 1030 items: size boundaries)
@@ -356,6 +358,8 @@ class World:
         if bad:
             self.anomalies.append(("delivered-argument-type", "%s.%s" % (T, fname), bad))
         out = self.field_outcome(T, fname, pid, args if args else None)
+        if self.p_raise_odd and self.rng_for(out[2] + "|odd").random() < self.p_raise_odd:
+            raise make_exception(self.rng_for(out[2] + "|oddk").choice(["raise_odd", "raise_odd", "raise", "raise_tf"]), out[2])
         if self.sched is not None:
             await self.sched.gate("r:" + "/".join(map(str, info.path.as_list())))
         if out[2] in self.faults:
@@ -452,13 +456,19 @@ class UnprintableError(Exception):
         raise RuntimeError("this exception cannot be printed")
 
 
+class OddMessageError(Exception):
+    """An application exception that happens to carry a `message` attribute which is not text."""
+    message = {"not": "a string", "code": 7}
+
+
 def make_exception(kind, key):
     if kind == "raise":
         return InjectedError("boom at %s" % key)
     if kind == "raise_odd":
         # exceptions that are awkward to REPORT: unprintable, or the library's own container class without content
         from tartiflette.types.exceptions.tartiflette import MultipleException
-        return [UnprintableError(), MultipleException(), MultipleException([InjectedError("inner boom at %s" % key)])][len(key) % 3]
+        return [UnprintableError(), MultipleException(), MultipleException([InjectedError("inner boom at %s" % key)]),
+                OddMessageError("boom at %s" % key)][len(key) % 4]
     from tartiflette.types.exceptions.tartiflette import TartifletteError
 
     class UserError(TartifletteError):
